@@ -61,6 +61,10 @@ pub struct SimSpec {
 	/// with the async API: the spawn hook's future suspends for this many (virtual) ms before the spawn goes on
 	#[serde(default)]
 	pub hook_delay: u8,
+	/// indices (0-based, global, counted over wait() calls on children not yet reaped) of wait() calls that
+	/// fail at once with an I/O error although the child lives on (only generated for C04)
+	#[serde(default)]
+	pub wait_fail: Vec<u8>,
 }
 
 impl SimSpec {
@@ -97,6 +101,7 @@ pub enum Ev {
 	Signal { child: usize, sig: i32, ok: bool, alive: bool },
 	StartKill { child: usize, ok: bool, alive: bool },
 	WaitStart { child: usize },
+	WaitFailed { child: usize },
 	WaitDone { child: usize, raw: i32 },
 	TryWait { child: usize, raw: Option<i32> },
 	Drop { child: usize, reaped: bool, alive: bool },
@@ -133,6 +138,7 @@ struct Inner {
 	spawn_attempts: usize,
 	kill_calls: usize,
 	signal_calls: usize,
+	wait_calls: usize,
 }
 
 #[derive(Clone)]
@@ -148,6 +154,7 @@ impl World {
 			spawn_attempts: 0,
 			kill_calls: 0,
 			signal_calls: 0,
+			wait_calls: 0,
 		})))
 	}
 
@@ -424,6 +431,12 @@ impl TokioChildWrapper for SimChild {
 					return Ok(ExitStatus::from_raw(raw));
 				}
 				World::rec(&mut g, Ev::WaitStart { child: id });
+				let call = g.wait_calls;
+				g.wait_calls += 1;
+				if g.spec.wait_fail.iter().any(|&i| i as usize == call) {
+					World::rec(&mut g, Ev::WaitFailed { child: id });
+					return Err(io::Error::other(format!("injected wait failure #{call}")));
+				}
 				g.children[id].exit.subscribe()
 			};
 			loop {
